@@ -130,22 +130,25 @@ class StatsModel:
         st = ('adt', ap, 0, tuple(probe))
         _, r = self.summ(append, ['self', 'x'], args=[by_ref(st), None])
         ok = [p for p in r if p.is_ret()]
-        if len(ok) != 1 or 'self' not in ok[0].effects:
-            self.problems.append('Arithmetic append is not a single-path update')
+        if not ok or any('self' not in p.effects for p in ok):
+            self.problems.append('Arithmetic append has no returning path')
             return
-        post = ok[0].effects['self']
         x = T.sym('x')
-        role = {}
-        for i in regs:
-            v = self.value_of(post[3][i])
-            d1 = self.nf.sub(self.nf.of_term(v), self.nf.of_term(T.sym('R%d' % i)))
-            if self.nf.equal(d1, self.nf.of_term(x)):
-                role['s1'] = i
-            elif self.nf.equal(d1, self.nf.of_term(T.op('mul', x, x))):
-                role['s2'] = i
-        if set(role) != {'s1', 's2'}:
-            self.problems.append('Arithmetic append: cannot identify sum / sum-of-squares registers')
-            return
+        role = None
+        for pth in ok:
+            post = pth.effects['self']
+            role_p = {}
+            for i in regs:
+                v = self.value_of(post[3][i])
+                d1 = self.nf.sub(self.nf.of_term(v), self.nf.of_term(T.sym('R%d' % i)))
+                if self.nf.equal(d1, self.nf.of_term(x)):
+                    role_p['s1'] = i
+                elif self.nf.equal(d1, self.nf.of_term(T.op('mul', x, x))):
+                    role_p['s2'] = i
+            if set(role_p) != {'s1', 's2'} or (role is not None and role != role_p):
+                self.problems.append('Arithmetic append: cannot identify sum / sum-of-squares registers')
+                return
+            role = role_p
         self.a_s1, self.a_s2, self.a_n = role['s1'], role['s2'], cnts[0]
 
     def arith_state(self, s1, s2, n):
